@@ -64,6 +64,29 @@ func (c failConn) WriteTo(b []byte, a net.Addr) (int, error) {
 	return 0, errors.New("verif: write failed")
 }
 
+// hookConn records like RecConn and then runs a scripted action INSIDE WriteTo, i.e. while the
+// pinging goroutine is still in its send (a responder faster than the sender).
+type hookConn struct {
+	*lib.RecConn
+	mu   sync.Mutex
+	hook func(frame []byte) error
+}
+
+func (c *hookConn) WriteTo(b []byte, a net.Addr) (int, error) {
+	c.RecConn.WriteTo(b, a)
+	c.mu.Lock()
+	h := c.hook
+	c.mu.Unlock()
+	if h != nil {
+		if err := h(append([]byte{}, b...)); err != nil {
+			return 0, err
+		}
+	}
+	return len(b), nil
+}
+
+func (c *hookConn) setHook(h func([]byte) error) { c.mu.Lock(); c.hook = h; c.mu.Unlock() }
+
 // ---------------------------------------------------------------------------
 // executor
 
@@ -93,6 +116,7 @@ type executor struct {
 	sizes  []int
 	lastNW time.Time // when the last non-wait step finished
 	bad    string
+	hconn  *hookConn
 }
 
 func peerMAC(p int) net.HardwareAddr { return net.HardwareAddr{0x02, 0x19, 0, 0, byte(p >> 8), byte(p)} }
@@ -106,6 +130,8 @@ func peerIP6(p int) netip.Addr {
 func newExecutor() *executor {
 	e := &executor{pings: map[int]*pingRun{}}
 	e.sess, e.conn = lib.NewSession()
+	e.hconn = &hookConn{RecConn: e.conn}
+	e.sess.Conn = e.hconn
 	e.fsess, _ = lib.NewSession()
 	e.fconn = failConn{lib.NewRecConn()}
 	e.fsess.Conn = e.fconn
@@ -173,12 +199,16 @@ func (pr *pingRun) dstIP() netip.Addr {
 }
 
 func (e *executor) launch(pr *pingRun, gate chan struct{}) {
-	pr.done = make(chan error, 1)
-	pr.timeout = time.Duration(pr.ms) * time.Millisecond
 	s := e.sess
 	if pr.mode == 'w' {
 		s = e.fsess
 	}
+	e.launchOn(pr, gate, s)
+}
+
+func (e *executor) launchOn(pr *pingRun, gate chan struct{}, s *packet.Session) {
+	pr.done = make(chan error, 1)
+	pr.timeout = time.Duration(pr.ms) * time.Millisecond
 	dst := packet.Addr{MAC: peerMAC(pr.p), IP: pr.dstIP()}
 	if pr.mode == 'a' { // wrong address family for this call
 		if pr.v6 {
@@ -299,6 +329,161 @@ func (e *executor) parseFrame(f []byte) {
 	e.sess.Parse(g)
 }
 
+// stepAt executes the step that starts at toks[i] and returns the index of the next step.
+// `q4.p.ms (f..|r..)* z.p.T|F` is ONE step: call p is started on a connection whose WriteTo hands
+// the listed frames to Session.Parse before it returns (nil, or an error for z.p.F).
+// `asy:<b..>|<f..>` starts the call on a connection whose WriteTo starts a goroutine that parses the
+// frame; recorded as `b.. r..` (the send returning and a notification commute: sent_notify_comm).
+func (e *executor) stepAt(toks []string, i int) int {
+	tok := toks[i]
+	switch {
+	case strings.HasPrefix(tok, "q4.") || strings.HasPrefix(tok, "q6."):
+		f := strings.Split(tok, ".")
+		if len(f) != 3 {
+			e.bad = "badscript"
+			return i + 1
+		}
+		pr, ok := parseB("b" + f[0][1:] + "." + f[1] + ".g." + f[2])
+		if !ok || e.pings[pr.p] != nil {
+			e.bad = "badscript"
+			return i + 1
+		}
+		j := i + 1
+		var inner []string
+		for ; j < len(toks) && (strings.HasPrefix(toks[j], "f.") || strings.HasPrefix(toks[j], "r.")); j++ {
+			inner = append(inner, toks[j])
+		}
+		if j >= len(toks) || (toks[j] != "z."+f[1]+".T" && toks[j] != "z."+f[1]+".F") {
+			e.bad = "badscript"
+			return j
+		}
+		sendOK := strings.HasSuffix(toks[j], ".T")
+		if !sendOK {
+			pr.mode = 'w' // the call returns the write error by itself
+		}
+		e.pings[pr.p] = pr
+		e.order = append(e.order, pr)
+		var hookLin []string
+		hookBad := ""
+		hookDone := make(chan struct{})
+		e.hconn.setHook(func(frame []byte) error {
+			dst, id, ok := decodeEchoRequest(frame)
+			if !ok || dst != pr.dstIP() {
+				return nil
+			}
+			defer close(hookDone)
+			pr.id = id
+			for _, t := range inner {
+				var fr []byte
+				if strings.HasPrefix(t, "r.") {
+					fr = lib.UnHex(t[2:])
+				} else if fr, ok = e.concretise(t); !ok {
+					hookBad = "badscript"
+					return nil
+				}
+				e.parseFrame(fr)
+				hookLin = append(hookLin, "r."+lib.Hex(fr))
+			}
+			if !sendOK {
+				return errors.New("verif: write failed after delivering the reply")
+			}
+			return nil
+		})
+		e.launchOn(pr, nil, e.sess)
+		e.waitBegunHook(pr, hookDone)
+		e.hconn.setHook(nil)
+		if hookBad != "" {
+			e.bad = hookBad
+		}
+		e.lin = append(e.lin, tok)
+		e.lin = append(e.lin, hookLin...)
+		e.lin = append(e.lin, toks[j])
+		e.lastNW = time.Now()
+		return j + 1
+	case strings.HasPrefix(tok, "asy:"):
+		parts := strings.Split(tok[4:], "|")
+		if len(parts) != 2 {
+			e.bad = "badscript"
+			return i + 1
+		}
+		pr, ok := parseB(parts[0])
+		if !ok || e.pings[pr.p] != nil || pr.mode != 'g' {
+			e.bad = "badscript"
+			return i + 1
+		}
+		e.pings[pr.p] = pr
+		e.order = append(e.order, pr)
+		done := make(chan string, 1)
+		e.hconn.setHook(func(frame []byte) error {
+			dst, id, ok := decodeEchoRequest(frame)
+			if !ok || dst != pr.dstIP() {
+				return nil
+			}
+			pr.id = id
+			fr, ok := e.concretise(parts[1])
+			if !ok {
+				done <- ""
+				return nil
+			}
+			go func() { e.parseFrame(fr); done <- "r." + lib.Hex(fr) }()
+			return nil
+		})
+		e.launchOn(pr, nil, e.sess)
+		var rl string
+		select {
+		case rl = <-done:
+		case <-time.After(3 * time.Second):
+		}
+		e.hconn.setHook(nil)
+		e.conn.Take()
+		if rl == "" {
+			e.bad = "asy-stuck"
+			return i + 1
+		}
+		e.lin = append(e.lin, parts[0], rl)
+		e.lastNW = time.Now()
+		return i + 1
+	case strings.HasPrefix(tok, "x."):
+		n, err := strconv.Atoi(tok[2:])
+		if err != nil || n < 0 || n > 65536 {
+			e.bad = "badscript"
+			return i + 1
+		}
+		bad := packet.Addr{MAC: peerMAC(0), IP: peerIP6(0)}
+		for k := 0; k < n; k++ {
+			if err := e.sess.Ping(bad, time.Second); err == nil || errors.Is(err, packet.ErrTimeout) {
+				e.bad = "bulk-ping-returned-" + classifyErr(err)
+				return i + 1
+			}
+		}
+		e.lin = append(e.lin, tok)
+		e.lastNW = time.Now()
+		return i + 1
+	}
+	e.step(tok)
+	return i + 1
+}
+
+// waitBegunHook: wait until the scripted WriteTo has finished; a failing send then returns by itself.
+func (e *executor) waitBegunHook(pr *pingRun, hookDone chan struct{}) {
+	select {
+	case <-hookDone:
+	case <-time.After(3 * time.Second):
+		e.bad = "begin-stuck"
+		return
+	}
+	e.conn.Take()
+	if pr.mode != 'g' {
+		select {
+		case err := <-pr.done:
+			pr.res = classifyErr(err)
+			pr.done <- err
+		case <-time.After(3 * time.Second):
+			e.bad = "begin-stuck"
+		}
+	}
+}
+
 func (e *executor) step(tok string) {
 	switch {
 	case strings.HasPrefix(tok, "b4.") || strings.HasPrefix(tok, "b6."):
@@ -416,8 +601,8 @@ func runScript(next0 uint16, toks []string) (lin []string, obs string, jitter bo
 		return toks, "setup:" + err.Error(), false
 	}
 	e.lastNW = time.Now()
-	for _, t := range toks {
-		e.step(t)
+	for i := 0; i < len(toks); {
+		i = e.stepAt(toks, i)
 		if e.bad != "" {
 			return e.lin, e.bad, false
 		}
@@ -557,10 +742,6 @@ func main() {
 			}
 		}
 	})
-	if *childFlag == "wrapdemo" {
-		fmt.Printf("@@C19W\t%s\n", wrapDemo())
-		return
-	}
 	if *childFlag != "" {
 		a := strings.Fields(*childFlag)
 		n, _ := strconv.Atoi(a[0])
@@ -580,7 +761,6 @@ func main() {
 		panic(err)
 	}
 	scs := append(corpusScenarios(), generate(r, r.Rand())...)
-	runWrapDemo(r, exe)
 	workers := runtime.NumCPU() / 2
 	if workers < 2 {
 		workers = 2
